@@ -27,6 +27,9 @@ pub struct HistoryCfg {
     pub max_difficulty: u64,
     /// when set, every payment burns this fraction (per mille) of the spent output as fee
     pub fee_fraction_permille: Option<u64>,
+    /// per mille chance per block of an NFT-style [Bound, Normal, Bound] creation whose holder
+    /// never spends (so the group reaches the window edge)
+    pub nft_permille: u64,
 }
 
 impl HistoryCfg {
@@ -47,6 +50,7 @@ impl HistoryCfg {
             replica_key: 1,
             max_difficulty: 12,
             fee_fraction_permille: None,
+            nft_permille: 0,
         }
     }
 }
@@ -127,6 +131,16 @@ impl History {
                 txs.push(tx);
             }
         }
+        if rng.below(1000) < self.cfg.nft_permille {
+            let gp = self.cfg.params.gp;
+            let ledger = self.b.store.ledger(parent);
+            let a = self.b.actors[1 + rng.below(n as u64 - 1) as usize].clone();
+            if let Some(o) = ledger.safe_owned_by(&a.pk, gp).into_iter().find(|o| o.amount > 20_000 && o.slip_type == 0 && !exclude.contains(&o.key())) {
+                exclude.push(o.key());
+                let holder = crate::world::actors(8)[6 + (self.steps % 2) as usize].pk;
+                txs.push(bound_create_tx(&a, &holder, &o, (o.amount / 2).max(10_000) + rng.below(5_000), self.b.store.get(parent).ts + 7));
+            }
+        }
         if txs.is_empty() {
             let a = self.b.actors[1 + rng.below(n as u64 - 1) as usize].clone();
             txs.push(build_tx(&a, &[], &[], self.b.store.get(parent).ts + 1 + rng.below(50), b"noop"));
@@ -186,4 +200,32 @@ impl History {
         let reorg = tip_moved && !self.b.store.is_ancestor(&before.1, &after.1);
         Ok(StepInfo { hash: h, parent: *parent, id: self.b.store.get(&h).id, with_gt: spec.with_gt, replica_result, tip_moved, reorg, n_txs })
     }
+}
+
+/// a transaction creating an NFT-style bound triple [Bound, Normal, Bound] from one output
+pub fn bound_create_tx(owner: &Actor, recipient: &PK, o: &OutRef, deposit: u64, ts: u64) -> Transaction {
+    use saito_core::core::consensus::slip::SlipType;
+    use saito_core::core::consensus::transaction::TransactionType;
+    let mut tx = Transaction::default();
+    tx.transaction_type = TransactionType::Bound;
+    tx.timestamp = ts;
+    tx.add_from_slip(o.to_input());
+    let mut s1 = out_slip(&owner.pk, 1);
+    s1.slip_type = SlipType::Bound;
+    let s2 = out_slip(recipient, deposit);
+    let mut uuid = [0u8; 33];
+    uuid[0..8].copy_from_slice(&o.block_id.to_be_bytes());
+    uuid[8..16].copy_from_slice(&o.tx_ordinal.to_be_bytes());
+    uuid[16] = o.slip_index;
+    uuid[17..21].copy_from_slice(b"test");
+    let mut s3 = out_slip(&uuid, 0);
+    s3.slip_type = SlipType::Bound;
+    tx.add_to_slip(s1);
+    tx.add_to_slip(s2);
+    tx.add_to_slip(s3);
+    if o.amount > deposit {
+        tx.add_to_slip(out_slip(&owner.pk, o.amount - deposit));
+    }
+    tx.sign(&owner.sk);
+    tx
 }
